@@ -136,6 +136,11 @@ def representation_cases(run):
     repr_case(run, "point_charge_integral", "points_coords", lambda c: point_charge_integral(basis, c, q), cpos, rep)
     repr_case(run, "point_charge_integral", "points_charge", lambda z: point_charge_integral(basis, cpos, z), q, rep)
     repr_case(run, "nuclear_electron_attraction_integral", "nuclear_coords", lambda c: nuclear_electron_attraction_integral(basis, c, q), cpos, rep)
+    # atomic numbers: non-negative integers, also as unsigned arrays (uint8 / uint64 — either refused or treated as the numbers they are)
+    zq = np.array([1.0, 8.0])
+    repr_case(run, "point_charge_integral", "points_charge (atomic numbers)", lambda z: point_charge_integral(basis, cpos, z), zq, rep)
+    repr_case(run, "nuclear_electron_attraction_integral", "nuclear_charges (atomic numbers)",
+              lambda z: nuclear_electron_attraction_integral(basis, cpos, z), zq, rep)
     T = np.array([[float((3 * r + 2 * c) % 5 - 2) for c in range(n)] for r in range(2)])
     repr_case(run, "point_charge_integral", "transform", lambda t: point_charge_integral(basis, cpos, q, transform=t), T, rep)
 
@@ -199,6 +204,24 @@ def check(run):
         one_case(run, sp_, pts, q, kinds, T)
         run.count(lab)
     many_charges_case(run)
+    # one nucleus with a basis of one function / a single-row transformation: the nuclear-attraction matrix is still a matrix
+    from gbasis.integrals.nuclear_electron_attraction import nuclear_electron_attraction_integral
+    from gbasis.integrals.point_charge import point_charge_integral
+    for k in range(3):
+        sp_ = [ShellSpec(0, [0.1, -0.2, 0.3], [1.3, 0.4], [[0.6], [0.5]])] if k == 0 else random_basis(rng, 2, 2, lmax=1, exp_hi=10.0)
+        nfun = sum(s_.size for s_ in sp_)
+        T = None if k == 0 else np.array([[core.snap(rng.uniform(-1, 1), 10) for _ in range(nfun)]])
+        pts1, q1 = np.array([[0.4, 0.1, -0.3]]), np.array([2.0])
+        kw = {} if T is None else {"transform": T}
+        b_ = make_basis(sp_)
+        nuc, pc = nuclear_electron_attraction_integral(b_, pts1, q1, **kw), point_charge_integral(b_, pts1, q1, **kw)
+        run.case(("one-nucleus-shape", k))
+        run.count("one nucleus, result with a single row and column")
+        if np.shape(nuc) != (1, 1) or np.shape(pc) != (1, 1, 1) or abs(float(np.asarray(nuc).ravel()[0]) - float(pc[0, 0, 0])) > 1e-12 * abs(float(pc[0, 0, 0])):
+            run.violation(f"nuclear_electron_attraction_integral for one nucleus returns shape {np.shape(nuc)} (point_charge_integral: {np.shape(pc)}); "
+                          "it is the sum of the per-charge arrays over the nuclei, a (1, 1) matrix here",
+                          {"case": "one-nucleus-shape", "basis": core.describe_basis(sp_), "signature": {"kind": "nuclear-shape"}})
+        one_case(run, sp_, pts1, q1, ("one",), T)
     from checks.common import custom_order_family
     for k in range(2 if run.tier == "quick" else 8):
         sp_ = custom_order_family(rng, (2, 1) if k % 2 else (1, 3))
